@@ -246,3 +246,127 @@ def option_some_edges(fn):
             if some:
                 out.append((sbb, fn.switch_target(sbb, some[0]), {"k": "copy", "pl": info["place"]}))
     return out
+
+
+def _moves_of(fn, local):
+    """Locals that receive `local` by a plain move/copy (`_y = move _x`)."""
+    out = []
+    for bb, i, st in fn.stmts():
+        rv = st["rv"]
+        if rv["rv"] == "use" and operand_local(rv["op"]) == local and not st["pl"]["p"]:
+            out.append(st["pl"]["l"])
+    return out
+
+
+def result_split(fn, local, max_hops=8):
+    """Follow a Result (or Option) value forward to the point where it is split into its two cases,
+    whatever the idiom: `x?`, `x.map_err(f)?`, `match x {Ok(..) => .., Err(..) => ..}`, `if let`, `let else`.
+    Returns dict(switch_bb, ok, err, mappers=[closure Fn applied to the error], via=[callee names], local)
+    where ok/err are the successor blocks of the two cases, or None."""
+    cur = local
+    mappers, via = [], []
+    seen = set()
+    for _ in range(max_hops):
+        if cur in seen:
+            break
+        seen.add(cur)
+        te = try_edges(fn, cur)
+        if te:
+            return {"switch_bb": te["switch_bb"], "ok": te["cont"], "err": te["brk"], "mappers": mappers, "via": via + ["?"], "local": cur, "payload": te["dest"]}
+        refs = [cur] + [st["pl"]["l"] for bb, i, st in fn.stmts() if st["rv"]["rv"] == "ref" and st["rv"]["pl"]["l"] == cur and not st["rv"]["pl"]["p"] and not st["pl"]["p"]]
+        for sbb, t in fn.switches():
+            info = fn.switch_on(sbb)
+            if info["kind"] == "discr" and info["place"]["l"] in refs and info["adt"] in ("std::result::Result", "std::option::Option"):
+                names = {n: i for i, n in info["variants"].items()}
+                okv, errv = (names.get("Ok"), names.get("Err")) if info["adt"].endswith("Result") else (names.get("Some"), names.get("None"))
+                return {"switch_bb": sbb, "ok": fn.switch_target(sbb, okv), "err": fn.switch_target(sbb, errv), "mappers": mappers, "via": via + ["match"], "local": cur, "payload": info["place"]["l"]}
+        nxt = None
+        for bb, t in fn.live_calls(r"(Result::<T, E>|Option::<T>)::(map_err|map|or_else|inspect_err|ok_or_else|ok_or)$"):
+            if operand_local(t["args"][0]) == cur:
+                if re.search(r"::(map_err|or_else|ok_or_else)$", t["callee"]):
+                    for h, node in closure_args_of_call(fn, t):
+                        mappers.append(h)
+                    if len(t["args"]) > 1 and t["args"][1].get("fn"):
+                        via.append("fn:" + t["args"][1]["fn"])
+                via.append(t["callee"].split("::")[-1])
+                nxt = t["dest"]["l"]
+                break
+        if nxt is None:
+            mv = _moves_of(fn, cur)
+            if mv:
+                nxt = mv[0]
+        if nxt is None:
+            break
+        cur = nxt
+    return None
+
+
+def http_error_ctors_on_error_path(fn, split):
+    """HttpError constructors that can produce the error returned on the error side of `split`
+    (from result_split): those inside the error-mapping closures, plus those feeding an `Err(..)`
+    written to the return place in the blocks reachable from the error edge but not from the ok edge."""
+    names = set()
+    for h in split["mappers"]:
+        hs = h.slice({"l": 0, "p": []})
+        names |= set(c for c in hs.callee_names() if re.search(r"^error::HttpError::for_", c))
+    err_only = fn.reachable(split["err"]) - fn.reachable(split["ok"])
+    for bb, i, st in fn.aggregates(r"^std::result::Result$", "Err"):
+        if st["pl"]["l"] == 0 and bb in err_only:
+            sl = fn.slice(st["rv"]["ops"][0])
+            names |= set(c for c in sl.callee_names() if re.search(r"^error::HttpError::for_", c))
+    return names
+
+
+def element_sources(facts, fn, op):
+    """Where does an *element* value come from?  Returns [(ctx_fn, iterator_operand, how)]:
+    - the operand's slice contains `Iterator::next(&mut it)`: (fn, it, "next")   [for / while-let loops]
+    - fn is a closure and the operand derives from its item parameter: (parent, receiver of the adaptor
+      call that takes the closure, "adaptor:<name>")                            [map / filter / any / find ..]"""
+    out = []
+    sl = fn.slice(op)
+    for c, bb, t in sl.calls(r"iter::Iterator::next$"):
+        out.append((fn, t["args"][0], "next"))
+    if fn.raw["kind"] == "Closure" and any(p >= 2 for p in sl.params()):
+        par = facts.F.get(fn.raw.get("parent"))
+        cands = [par] if par is not None else []
+        # closures of an inlined helper are re-parented through raw["inlined"]
+        cands += [g for g in facts.F.values() if fn.raw.get("parent") in g.raw.get("inlined", [])]
+        for g in cands:
+            for bb, t in g.live_calls():
+                for h, node in closure_args_of_call(g, t):
+                    if h is fn and t["args"]:
+                        out.append((g, t["args"][0], "adaptor:" + (t.get("callee") or "").split("::")[-1]))
+    return out
+
+
+ITER_PLUMBING = [r"iter::Iterator::next$", r"iter::IntoIterator::into_iter$", r"iter::Iterator::(by_ref|peekable|fuse|enumerate|skip|take)$"]
+
+
+def borrow_root(fn, op, max_hops=8):
+    """Root local of a (re)borrow chain: `&mut v`, `&mut *r` with r = &mut v, moves of such references."""
+    cur = operand_local(op)
+    for _ in range(max_hops):
+        if cur is None:
+            return None
+        ds = fn.defs().get(cur, [])
+        if len(ds) != 1 or ds[0][1] != "assign":
+            return cur
+        rv = ds[0][2]["rv"]
+        if rv["rv"] == "ref":
+            pl = rv["pl"]
+            if not pl["p"]:
+                cur = pl["l"]
+                # a reference to the collection itself: that is the root unless it is again a reference local
+                ds2 = fn.defs().get(cur, [])
+                if len(ds2) == 1 and ds2[0][1] == "assign" and ds2[0][2]["rv"]["rv"] in ("ref", "use") and fn.local_ty(cur).startswith("&"):
+                    continue
+                return cur
+            if pl["p"] == ["*"]:
+                cur = pl["l"]
+                continue
+            return None
+        if rv["rv"] == "use":
+            cur = operand_local(rv["op"])
+            continue
+        return cur
+    return cur
